@@ -416,6 +416,23 @@ class SC(_ScalarLike):
             k = int(k)
         if isinstance(k, (float, np.floating, Fraction)) and Fraction(k) == Fraction(1, 2):
             return self.sqrt()
+        if isinstance(k, (float, np.floating, Fraction)):
+            fr = Fraction(k).limit_denominator(64)
+            if fr.numerator == 1 and 2 < fr.denominator <= 8 and abs(float(fr) - float(k)) < 1e-15 and self.isreal:
+                # k-th root of a non-negative real: fresh r >= 0 with r^k = base
+                kk = fr.denominator
+                tab = CTX.__dict__.setdefault('_roots', {})
+                key = (self.re.id, kk)
+                if key not in tab:
+                    r = CTX.fresh(f'root{kk}')
+                    rk = r
+                    for _ in range(kk - 1):
+                        rk = ir.rmul(rk, r)
+                    CTX.facts += [ir.rcmp('le', ir.ZERO, r), ir.rcmp('eq', rk, self.re)]
+                    CTX.side.append(('root', ir.rcmp('le', ir.ZERO, self.re)))
+                    CTX.aux.append((r, 'root', (self.re, kk)))
+                    tab[key] = SC(r)
+                return tab[key]
         if not isinstance(k, (int, np.integer)):
             raise EngineError(f'power with exponent {k!r}')
         k = int(k)
